@@ -77,11 +77,11 @@ CLAIMED = {
                  "(so by (c) no other bin changes); (f) every ProjDataFromStream write call that returns normally has flushed everything it wrote (ghost "
                  "dirty flag; seek/write failures and exceptions nondeterministic) - 'visible to an independent reader as soon as each write call returns'; "
                  "an out-of-range single bin writes nothing; and has stored its block with the file's scale factor, the one every reader multiplies with; "
-                 "(g) read paths ProjDataFromStream::get_bin_value/get_viewgram/get_sinogram and ProjDataInMemory::get_/set_bin_value, set_segment, "
+                 "(g) read paths ProjDataFromStream::get_bin_value/get_viewgram/get_sinogram/get_segment_by_sinogram/get_segment_by_view and ProjDataInMemory::get_/set_bin_value, set_segment, "
                  "get_segment_by_sinogram: every element of the returned object is read once from the closed-form place and scaled once; (h) ProjData base "
                  "class loops (set_segment x2, get_segment_by_* x2, set_related_viewgrams, fill x2): every part of the object is handed to the smaller path "
                  "exactly once with its own indices and a failure is reported. Parametric: numbers of views / tangential positions / bytes per element are constants per job. "
-                 "Not decided: ProjDataFromStream::get_segment_by_*, the SegmentByView/SegmentBySinogram conversions, order inside the one "
+                 "Not decided: the SegmentByView/SegmentBySinogram conversions (trusted), order inside the one "
                  "block of set_segment(by view) in view order, on-disk number type and byte order (write_data/read_data are stubs), the rest of the Interfile "
                  "header round trip (keyword parsing, the two std::sort calls of find_segment_sequence: assumed), that a flushed fstream is visible to "
                  "another process (OS behaviour; exercised natively by the replay driver)."),
